@@ -997,6 +997,8 @@ struct C13Obs<'a> {
     stats: Option<&'a mut Stats>,
     evals: u64,
     deliveries: u64,
+    /// decode the first deliveries also on a fresh thread (runs that carry a frame family)
+    fresh_thread: bool,
     /// (absolute offset, exact frame bytes, Debug rendering of the message decoded in stream order)
     decoded: Vec<(usize, Vec<u8>, String)>,
 }
@@ -1015,7 +1017,60 @@ impl<'a> C13Obs<'a> {
         if self.decoded.len() < 256 {
             if let Ok(Ok(f)) = real_new(&with[..flen]) {
                 let (_, m) = real_message(&f);
-                self.decoded.push((base + rs, with[..flen].to_vec(), msg_brief_full(&m)));
+                let want = msg_brief_full(&m);
+                // the same bytes at every memory alignment (and, for the first deliveries, on a
+                // fresh thread): the decoded message is a function of the bytes, not of where they
+                // lie or of what this thread decoded before
+                if self.deliveries <= 8 && flen <= 600 {
+                    let mut scratch = vec![0u8; flen + 16];
+                    for o in 0..8usize {
+                        scratch[o..o + flen].copy_from_slice(&with[..flen]);
+                        if let Ok(Ok(f2)) = real_new(&scratch[o..o + flen]) {
+                            let got = msg_brief_full(&real_message(&f2).1);
+                            self.evals += 1;
+                            if got != want {
+                                let cut = |s: &String| if s.len() > 70 { format!("{}..", &s[..70]) } else { s.clone() };
+                                return Err(Violation::new(
+                                    "C13",
+                                    "C13.c",
+                                    format!(
+                                        "delivery at abs {} ({} bytes): decoded where it was delivered it gave {}, the same bytes copied to an address with offset {} (mod 8) decode to {}",
+                                        base + rs,
+                                        flen,
+                                        cut(&want),
+                                        o,
+                                        cut(&got)
+                                    ),
+                                ));
+                            }
+                        }
+                    }
+                    if self.deliveries <= 2 && self.fresh_thread {
+                        let bytes = with[..flen].to_vec();
+                        let got = std::thread::spawn(move || match real_new(&bytes) {
+                            Ok(Ok(f3)) => msg_brief_full(&real_message(&f3).1),
+                            _ => String::from("<not a frame>"),
+                        })
+                        .join()
+                        .unwrap_or_else(|_| String::from("<thread panicked>"));
+                        self.evals += 1;
+                        if got != want {
+                            let cut = |s: &String| if s.len() > 70 { format!("{}..", &s[..70]) } else { s.clone() };
+                            return Err(Violation::new(
+                                "C13",
+                                "C13.c",
+                                format!(
+                                    "delivery at abs {} ({} bytes): decoded in stream order it gave {}, decoded first thing on a fresh thread it gives {}",
+                                    base + rs,
+                                    flen,
+                                    cut(&want),
+                                    cut(&got)
+                                ),
+                            ));
+                        }
+                    }
+                }
+                self.decoded.push((base + rs, with[..flen].to_vec(), want));
             }
         }
         if let Some(st) = self.stats.as_deref_mut() {
@@ -1218,7 +1273,8 @@ fn judge_c13(trace: &StreamTrace, mut stats: Option<&mut Stats>) -> Option<Viola
     if let Some(st) = stats.as_deref_mut() {
         st.oracle_evals += pre_evals;
     }
-    let mut obs = C13Obs { stats: stats.as_deref_mut(), evals: 0, deliveries: 0, decoded: Vec::new() };
+    let fresh_thread = trace.segments.iter().any(|s| s.label.contains("family"));
+    let mut obs = C13Obs { stats: stats.as_deref_mut(), evals: 0, deliveries: 0, fresh_thread, decoded: Vec::new() };
     let r = catch_unwind(AssertUnwindSafe(|| drive(trace, trace.rx_variant, "C13", &mut obs)));
     let mut evals = obs.evals;
     let decoded = std::mem::take(&mut obs.decoded);
